@@ -18,6 +18,11 @@ TITLES = [
     ("C02", r"rows-differ_(join|selfjoin|derived|subquery)", "join/subquery answers differ from SQL: NULL = NULL matches in hash/semi joins, NOT IN over NULLs, outer-join ON-condition pushdown", "src/executor/hash_join.rs; src/planner/rules/plan.rs"),
     ("C02", r"rows-differ_proj_", "NULL-unsafe scalar rewrites (a*0, a-a, a=a, conflicting ranges) evaluate to non-NULL on NULL rows", "src/planner/rules/expr.rs"),
     ("C03", r"reopen-fails", "CREATE VIEW consumes a table id that is not logged in the manifest: a table created after a view is replayed under a different id and the database no longer opens", "src/storage/secondary/manifest.rs (replay assigns ids by catalog order); src/executor/create_view.rs"),
+    ("C13", r"nofirstkey", "with record_first_key = false every pushed-down key range panics in start_rowid (empty first_key decoded as i32); conflicting two-sided ranges return all rows", "src/storage/secondary/rowset/disk_rowset.rs start_rowid; src/planner/rules/range.rs"),
+    ("C13", r"@pos0:int$", "an empty two-sided range (k > c and k < c) pushed into the scan returns every row", "src/storage/secondary/rowset/rowset_iterator.rs (start/end positions of an empty range); src/planner/rules/range.rs"),
+    ("C13", r"@pos0:(bigint|smallint)", "range pushdown on a BIGINT/SMALLINT key compares the INT literal with the key by DataValue variant order (and start_rowid only supports Int32): missing and extra rows", "src/storage/secondary/rowset/rowset_iterator.rs; disk_rowset.rs start_rowid; src/planner/rules/range.rs (no type/position check)"),
+    ("C13", r"@pos0:(varchar|date)", "range pushdown on a non-integer primary key panics in start_rowid ('for now support range-filter scan by sort key type of int32')", "src/storage/secondary/rowset/disk_rowset.rs:165; src/planner/rules/range.rs"),
+    ("C13", r"@pos[12]:", "range pushdown when the primary key is not the first table column: start_rowid reads column 0's first keys and the row filter is applied to the first *scanned* column", "src/storage/secondary/rowset/disk_rowset.rs start_rowid; rowset_iterator.rs (id == 0); src/planner/rules/range.rs"),
     ("C18", r"database-does-not-open", "every row-set index is decoded when the database is opened: one corrupted *.idx file makes Database::new_on_disk panic, so tables that are not affected cannot be read either", "src/storage/secondary/storage.rs bootstrap (DiskRowset::open for all row-sets); src/db.rs new_on_disk unwrap"),
     ("C05", r"outcome_rows-vs-err", "key-range scan fails on disk when the primary key is not the first table column (start_rowid decodes column 0's first keys as i32 and panics); the memory engine answers", "src/storage/secondary/rowset/disk_rowset.rs:141 start_rowid"),
     ("C05", r"rows-differ|column-types", "NULL inserted into a NOT NULL column is stored as 0/'' on disk but as NULL in memory (no NOT NULL check on INSERT)", "src/executor/insert.rs; src/storage/secondary/column (non-nullable encodings)"),
